@@ -69,6 +69,7 @@ var contracts = map[string]*Contract{
 	"time.Parse":          {Det: true, Note: "RFC3339 accepts offsets and fractional seconds, errors otherwise"},
 	"(time.Time).Before":  {Det: true, Note: "strict instant comparison, zone-independent"},
 	"(time.Time).After":   {Det: true, Note: "strict instant comparison, zone-independent"},
+	"(time.Time).Compare": {Det: true, Note: "-1 / 0 / +1 by instant, zone-independent"},
 	"(time.Time).Equal":   {Det: true, Note: "instant equality, zone-independent"},
 	"(time.Time).UTC":     {Det: true},
 	"(time.Time).Add":     {Det: true},
